@@ -166,6 +166,9 @@ CORPUS = [
     "x = f(a,b,)\ny = g(k : v,)\n", "x = [\n  'a',\n  'b', # c\n]\n", "x = a.b().c().d(1, 2)\n", "x = -1\ny = not true\nz = a[0]\n",
     "project('p', 'c', version : '1.0', default_options : ['a=b', 'c=d'])\n", "x = f(a, [1, 2], b)\n", "#only a comment\n",
     "x = files(['b.c', 'a.c'])\n", "x = files('z.c', ['b.c', 'a.c'])\n", "foo('a',)\n", "x = files(\n  'b.c', # second\n  'a.c', # first\n)\n",
+    "foreach x : l\n  # only a comment\nendforeach\nexecutable('a_rather_long_program_name', 'source1.c', 'source2.c')\n",
+    "if a\n  # c1\nelif b\n  # c2\nelse\n  # c3\nendif\nf(aaaaaaaaaaaaaaaaaa, bbbbbbbbbbbbbbbbbbbbbb, cccccccccccccccccccc)\n",
+    "foreach k, v : d\n  # first\n  x += v # second\n  # third\nendforeach\ny = g(aaaaaaaaaaaaaaaaaa, bbbbbbbbbbbbbbbbbbbbbb)\n",
     "x = files(f'b.c', 'a.c')\n", "x = files(f'b@0@.c', '''a.c''', 'c.c')\n", "x = files(\n  'b.c',\n  'a.c' # last\n)\n", "x = (a and # why\n  b)\n",
 ]
 
